@@ -836,7 +836,12 @@ class FnBody:
             if n in PRIM_FUNCS:
                 return PRIM
             if n in ALLOC_FUNCS:
-                return self.container_of(e, n, args + extra)
+                x = self.container_of(e, n, args + extra)
+                if n == "dict" and len(e.args) == 1 and not kwargs and not extra:
+                    vs = self.dict_variants(e.args[0], env)
+                    if vs is not None and len(vs) == 1:
+                        tr.known_dicts[x] = dict(vs[0])  # a copy of a dictionary with known keys
+                return x
             if n == "enumerate":
                 tup = self.container_of(e, "enum-item", args[:1])
                 return self.alloc(e, "enumerate", [("[]", tup)])
